@@ -336,6 +336,80 @@ def run_link_and_backslash(ctx, binary, base):
     return n
 
 
+def run_unremovable(ctx, binary):
+    """Some of the `.mmm` files of DIR cannot be unlinked by the caller while others can (a sticky directory -- like /tmp --
+    holding files of two owners; `clean` runs as uid 65534).  The property's reading: every bytecode file that CAN be removed is
+    removed whatever read_dir yields first, the number removed is reported, everything else (the unremovable ones, sources,
+    sub-directories) is untouched, and the exit status says whether the directory is clean.  Needs root + util-linux setpriv
+    to become another uid; skipped (and said so in the evidence) otherwise.  Byte-level Python oracle, outside the model."""
+    drop = ["--reuid=65534", "--regid=65534", "--clear-groups"]
+    if os.geteuid() != 0 or not shutil.which("setpriv") or programs.run_bin("setpriv", drop + ["true"], "/")[0] != 0:
+        ctx.cov["unremovable_file_cases"] = "skipped: needs root and setpriv to run clean as another uid"
+        return 0
+    top = tempfile.mkdtemp(prefix="msv-C20-sticky-", dir="/tmp")
+    ctx.tmpdirs.append(top)
+    os.chmod(top, 0o755)
+    exe = os.path.join(top, "mscript")
+    shutil.copy(binary, exe)
+    os.chmod(exe, 0o755)
+    names = ["a.mmm", "b.mmm", "c.mmm", "d.mmm", "e.transpiled.mmm", "f g.mmm"]
+    masks = [{n} for n in names] + [set(), set(names)]
+    for _ in range(4 if ctx.quick() else 40):
+        masks.append({n for n in names if ctx.rng.random() < 0.4})
+    n_run = 0
+    for i, locked in enumerate(masks):
+        root = os.path.join(top, "c%d" % i)
+        d = os.path.join(root, "st")
+        os.makedirs(os.path.join(d, "sub"))
+        os.makedirs(os.path.join(d, "dir.mmm"))
+        os.chmod(root, 0o755)
+        for rel in names + ["keep.txt", "x.ms", "x.mmm.bak", "sub/in.mmm"]:
+            with open(os.path.join(d, rel), "w") as f:
+                f.write("content of %s\n" % rel)
+        for rel in names + ["keep.txt", "x.ms", "x.mmm.bak", "sub/in.mmm", "sub", "dir.mmm"]:
+            if rel not in locked:
+                os.chown(os.path.join(d, rel), 65534, 65534)       # the caller's own entries
+        os.chmod(d, 0o1777)                                          # sticky: only the owner of an entry may unlink it
+        order = os.listdir(d)
+        before = snapshot(root)
+        rc, out, err = programs.run_bin("setpriv", drop + [exe, "clean", d], root)
+        after = snapshot(root)
+        n_run += 1
+        out = ANSI.sub("", out)
+        lines = out.splitlines()
+        m = [re.fullmatch(r"Removed (\d+) files", l) for l in lines]
+        m = [x for x in m if x]
+        count = int(m[-1].group(1)) if m else None
+        removable = sorted("st/" + n for n in names if n not in locked)
+        gone = sorted(set(before) - set(after))
+        left = [r for r in removable if r in after]
+        bad = []
+        cls = "unremovable-file-stops-the-sweep"
+        if left:
+            bad.append("%d removable bytecode file(s) are still there: %r" % (len(left), left))
+        if count is None:
+            bad.append("no `Removed N files` line (%d file(s) were removed)" % len(gone))
+        elif count != len(gone):
+            bad.append("reported %d removed, %d entries are gone" % (count, len(gone)))
+        other = [k for k in gone if k not in removable] + [k for k in after if k not in before or after[k] != before[k]]
+        if other:
+            cls = "unremovable-file:something-else-touched"
+            bad.append("entries other than the removable bytecode files were deleted / altered / created: %r" % sorted(other)[:6])
+        if programs.exit_class(rc) not in ("ok", "fail") or (rc == 0) != (not locked):
+            if not bad:
+                cls = "unremovable-file:exit-status"
+            bad.append("exit status %d with %d unremovable file(s)" % (rc, len(locked)))
+        if bad:
+            ctx.report(cls, "mscript clean on a sticky directory where %d of %d bytecode files belong to another user (read_dir order %r): %s"
+                       % (len(locked), len(names), order, "; ".join(bad)),
+                       {"unremovable(owner root)": sorted(locked), "removable(owner 65534)": removable, "read_dir_order": order, "rc": rc, "stdout": out[-600:], "stderr": err[-600:],
+                        "left_afterwards": sorted(k for k in after if k.startswith("st/")),
+                        "how": "as root: mkdir -m 1777 st; create the files, chown 65534 the removable ones; setpriv --reuid=65534 --regid=65534 --clear-groups mscript clean st"})
+        shutil.rmtree(root, ignore_errors=True)
+    ctx.cov["unremovable_file_cases"] = n_run
+    return n_run
+
+
 def run(ctx):
     ok = core.coq_props(ctx, "Props/C20.v")
     binary = core.build_repo()
@@ -461,6 +535,7 @@ def run(ctx):
     nv = len(ctx.viol)
     extra += run_raw_names(ctx, binary, base)
     extra += run_link_and_backslash(ctx, binary, base)
+    extra += run_unremovable(ctx, binary)
     spec_fail += len(ctx.viol) - nv
     ctx.cov["evaluations"] = len(trees) + extra
     ctx.cov["distinct_nontrivial"] = nontrivial
@@ -482,8 +557,9 @@ def run(ctx):
     ctx.cov["trusted_base"] = ["Coq 8.16.1 kernel (coqc; vm_compute for model evaluation and Examples)",
                                "no axioms (Print Assumptions: closed under the global context)",
                                "the filesystem: read_dir yields each entry once while entries are unlinked; unlink(2) semantics per kind (modelled in remove_file, observed here)",
-                               "Python snapshot/differ (os.walk, lstat, sha1) and the independent extension rule spec_extension"]
-    ctx.assumptions = ["Clean/Model.v is hand-written (clean_command with fixes/clean-skip-dirs.diff); tied to the binary by this run's differential comparison",
+                               "Python snapshot/differ (os.walk, lstat, sha1) and the independent extension rule spec_extension",
+                               "unremovable files (EPERM): sticky directory + setpriv to uid 65534, only when the check runs as root; outside the model"]
+    ctx.assumptions = ["Clean/Model.v is hand-written (clean_command with fixes/clean-skip-dirs.diff and fixes/clean-continues-after-failure.diff); tied to the binary by this run's differential comparison",
                        "entry names are valid UTF-8 without '/' and newline; names whose stem is only dots (`..mmm`) are checked against the model only",
                        "whether a symbolic link named *.mmm counts as a `file` is left open by the property: the model (and the code) unlink the link; the target must be untouched"]
-    core.proof_or_search(ctx, ok, ["C20_clean_exact", "C20_clean_order_independent", "C20_clean_spares", "C20_clean_removes"], spec_fail > 0)
+    core.proof_or_search(ctx, ok, ["C20_clean_exact", "C20_clean_order_independent", "C20_clean_spares", "C20_clean_removes", "C20_keep_going_sweeps_everything"], spec_fail > 0)
